@@ -69,6 +69,7 @@ def run(task, reducer, *, inplace=False, frozen=False, do_not_copy=False, initia
     def conf(cfg):
         cfg.event_filter = reducer
         cfg.loop_unroll = loop_unroll
+        cfg.guard_pred = lambda k: k[0] == "immutable"    # never merged away: rules rely on it
         set_family(cfg, ctx, fam)
         if configure:
             configure(cfg)
